@@ -34,7 +34,7 @@ import (
 	"verif/internal/model"
 )
 
-const rule = "cases: constructor argument tuples for every structure that has both a constructor and a validator - Certificate (+builder), KeysAndCert, Destination, RouterIdentity, RouterAddress, RouterInfo, LeaseSet, LeaseSet2, EncryptedLeaseSet, OfflineSignature, Signature, Mapping (also maps of 125..135 pairs whose encoded body lies within +-2000 bytes of the 65,535 limit, through GoMapToMapping, MappingValues.Add + ValuesToMapping and NewRouterAddress) - valid tuples and single-defect variants of the kinds the validators document (key length != its type's length at any key index, KeyLen != len(KeyData), 0/17 keys or leases, flag <-> offline block mismatch, reserved flag bits, signature or key length != type, unknown type, zero expires, empty or over-long transport style, nil option map, wrong padding size, prohibited key type). Oracles: constructor ok => Validate()==nil; Validate()==nil (constructed or parsed) => Bytes() ok => Read* ok with empty remainder and the same bytes; defect => the constructor rejects, and the validator rejects the same defect when it is presented through the parser or exported fields. Expiry rules are excluded (far-future dates). Non-trivial: a defect variant, or a valid tuple with >= 2 optional parts; distinct by (kind, defect, arguments)."
+const rule = "cases: constructor argument tuples for every structure that has both a constructor and a validator - Certificate (+builder), KeysAndCert, Destination, RouterIdentity, RouterAddress, RouterInfo, LeaseSet, LeaseSet2, EncryptedLeaseSet, OfflineSignature, Signature, Mapping (also maps of 125..135 pairs whose encoded body lies within +-2000 bytes of the 65,535 limit, through GoMapToMapping, MappingValues.Add + ValuesToMapping and NewRouterAddress) - valid tuples and single-defect variants of the kinds the validators document (key length != its type's length at any key index, KeyLen != len(KeyData), 0/17 keys or leases, 256 .. 65,537 router addresses (and the valid maximum of 255), flag <-> offline block mismatch, reserved flag bits, signature or key length != type, unknown type, zero expires, empty or over-long transport style, nil option map, wrong padding size, prohibited key type). Oracles: constructor ok => Validate()==nil; Validate()==nil (constructed or parsed) => Bytes() ok => Read* ok with empty remainder and the same bytes; defect => the constructor rejects, and the validator rejects the same defect when it is presented through the parser or exported fields. Expiry rules are excluded (far-future dates). Non-trivial: a defect variant, or a valid tuple with >= 2 optional parts; distinct by (kind, defect, arguments)."
 
 func TestMain(m *testing.M) { ev.Main(m, "C14", rule) }
 
@@ -618,6 +618,28 @@ func checkRI(c Case, r *ev.Rec) error {
 		}
 		addrs = append(addrs, ra)
 	}
+	// the address count is a one-byte field: 255 addresses are the most a RouterInfo can
+	// carry, one more is out of range for constructor and validator alike
+	if c.Defect == "too-many-addresses" || (c.Defect == "" && c.N%40 == 7) {
+		if len(addrs) == 0 {
+			ra, err := router_address.NewRouterAddress(3, time.Unix(0, 0), "NTCP2", map[string]string{"host": "10.1.2.3"})
+			if err != nil {
+				return err
+			}
+			addrs = append(addrs, ra)
+		}
+		want := 255
+		if c.Defect != "" {
+			want = 256 + c.N%45
+			if c.N%3 == 0 {
+				want = []int{256, 257, 511, 512, 513, 65535, 65536, 65537}[c.N/3%8]
+			}
+		}
+		for i := 0; len(addrs) < want; i++ {
+			addrs = append(addrs, addrs[i])
+		}
+		r.Class(fmt.Sprintf("ri:addresses>=255,defect=%v", c.Defect != ""))
+	}
 	priv, err := libkeys.SigPriv(key)
 	if err != nil {
 		return err
@@ -629,7 +651,7 @@ func checkRI(c Case, r *ev.Rec) error {
 	ri, err := router_info.NewRouterInfo(rid, time.UnixMilli(int64(s.Published)), addrs, pairsToMap(s.Options), priv, sigType)
 	if c.Defect != "" {
 		if err == nil {
-			return fmt.Errorf("NewRouterInfo accepted the defect %q", c.Defect)
+			return fmt.Errorf("NewRouterInfo accepted the defect %q (%d addresses; Validate on the result: %v)", c.Defect, len(addrs), ri.Validate())
 		}
 		r.NonTrivialStr(c, "ri", c.Defect, fmt.Sprint(c.N))
 		return nil
@@ -934,8 +956,11 @@ func genCase(t *rapid.T) Case {
 			}
 		}
 		c.RI = &s
-		if rapid.IntRange(0, 5).Draw(t, "badsig") == 0 {
+		switch rapid.IntRange(0, 11).Draw(t, "badsig") {
+		case 0, 1:
 			c.Defect = "unsupported-sigtype"
+		case 2:
+			c.Defect = "too-many-addresses"
 		}
 	case "ls":
 		s := gen.LeaseSetG(t, "ls")
